@@ -460,6 +460,13 @@ func encryptFrags(log *slog.Logger, cfg *ResponseConfig, drmCfg *drm.DrmConfig,
 	var key, kid, iv []byte
 	var scheme string
 	ed := rp.encData
+	if ed == nil {
+		if rp.PreEncrypted {
+			return fmt.Errorf("drm parameter %q, but pre-encrypted representation %s cannot be encrypted again", cfg.DRM, rp.ID)
+		}
+		// No encryption data (e.g. subtitle track): served in clear, like its init segment
+		return nil
+	}
 	switch cfg.DRM {
 	case "eccp-cenc", "eccp-cbcs":
 		scheme = strings.TrimPrefix(cfg.DRM, "eccp-")
